@@ -53,9 +53,14 @@ def static_counts(tree):
     return imports, calls
 
 
+LATE = "late-mutation-of-call-argument"
+
+
 def c03_events(term, out):
     """Every import and call of the VM is performed (at least as often) by the decompiled program."""
     PROP = "C03"
+    real_out = out
+    out = _SigRewriter(real_out, term)
     okv, vm = term.vm
     if not okv:
         out.stats.inc("vm_rejected_at_stop")
@@ -64,6 +69,9 @@ def c03_events(term, out):
     if not oks:
         out.stats.inc("refused_decompile")
         out.outcomes.add(("refused", type(src).__name__))
+        return
+    if vm.unordered_args:
+        out.stats.inc("hash_order_dependent_program_excluded")
         return
     v_imp, v_calls, v_oth = refvm.events(vm.world)
     v_imp = [e for e in v_imp if e[1] not in BUILTIN_FAMILY]
@@ -111,6 +119,23 @@ def c03_events(term, out):
                     term.replay(), len(term.seq))
 
 
+class _SigRewriter:
+    """Programs in which a mutable value is changed after it was passed to a call / applied as state form one known class
+    (fickling mutates list/dict/set literals in place, so the call's arguments are rewritten retroactively)."""
+
+    def __init__(self, out, term):
+        self._out = out
+        self._term = term
+        self.stats = out.stats
+        self.outcomes = out.outcomes
+
+    def violate(self, prop, sig, desc, replay, size):
+        okv, vm = self._term.vm
+        if okv and (vm.late_mutation or refvm.late_mutation(vm.world)):
+            sig = f"{prop}|{LATE}"
+        self._out.violate(prop, sig, desc, replay, size)
+
+
 def _short(x, n=200):
     s = repr(x)
     return s if len(s) <= n else s[:n] + "..."
@@ -119,9 +144,13 @@ def _short(x, n=200):
 def c05_value(term, out):
     """exec(decompiled) under stubs builds the same value as the VM under the same stubs."""
     PROP = "C05"
+    out = _SigRewriter(out, term)
     okv, vm = term.vm
     if not okv:
         out.stats.inc("vm_rejected_at_stop")
+        return
+    if vm.unordered_args:
+        out.stats.inc("hash_order_dependent_program_excluded")
         return
     try:
         want = canon(vm.result)
